@@ -128,6 +128,7 @@ func vpClockGap(max int) int
 func vpYAMLFile(path string, doc interface{})
 func vpWriteSetBegin()
 func vpSignalHUP()
+func vpCliContext(globals, locals map[string]string, args []string) *cli.Context
 func vpFireTimers() int
 func vpTimerFires() int
 func vpHookBehaviour(kind int)
@@ -148,7 +149,13 @@ func overlayFor(repo, verif string, dirs []string) (map[string][]byte, map[strin
 	files := map[string][]string{}
 	for _, d := range dirs {
 		pn := pkgNameOf(repo, d)
-		ov[filepath.Join(repo, d, "zz_vp_api.go")] = []byte(fmt.Sprintf(apiDecl, pn))
+		decl := fmt.Sprintf(apiDecl, pn)
+		if pn == "main" {
+			decl = strings.Replace(decl, "package main\n", "package main\n\nimport \"github.com/urfave/cli\"\n", 1)
+		} else {
+			decl = strings.Replace(decl, "func vpCliContext(globals, locals map[string]string, args []string) *cli.Context\n", "", 1)
+		}
+		ov[filepath.Join(repo, d, "zz_vp_api.go")] = []byte(decl)
 		hs, _ := filepath.Glob(filepath.Join(verif, "harness", d, "*.go"))
 		sort.Strings(hs)
 		for _, h := range hs {
@@ -703,12 +710,23 @@ func nativeOverlay(repo, verif, pkgDir string, hfiles map[string][]string, tmp s
 	if err != nil {
 		return "", err
 	}
+	extraRepl := ""
 	natFile := filepath.Join(tmp, "vp_native.go")
 	os.WriteFile(natFile, []byte(strings.Replace(string(nat), "package PKG", "package "+pn, 1)), 0644)
+	if pn == "main" {
+		if extra, err := os.ReadFile(filepath.Join(verif, "harness", "native", "vp_native_main.go.txt")); err == nil {
+			ef := filepath.Join(tmp, "vp_native_main.go")
+			os.WriteFile(ef, extra, 0644)
+			extraRepl = ef
+		}
+	}
 	// test file listing the units of this package
 	var units []string
 	re := regexp.MustCompile(`(?m)^func (VP_C\d+_\w+)\(\)`)
 	repl := map[string]string{filepath.Join(repo, pkgDir, "zz_vp_api.go"): natFile}
+	if extraRepl != "" {
+		repl[filepath.Join(repo, pkgDir, "zz_vp_api_main.go")] = extraRepl
+	}
 	for _, h := range hfiles[pkgDir] {
 		b, _ := os.ReadFile(h)
 		for _, m := range re.FindAllSubmatch(b, -1) {
